@@ -119,8 +119,24 @@ func stmtTextEnv(v ssa.Value, d int, env map[ssa.Value]ssa.Value) string {
 			return sb.String()
 		}
 	}
+	// a field of a struct that is written by exactly one store in the whole package (a statement prepared once in a
+	// constructor: `stmts: treeStatements{selectLastRoot: fmt.Sprintf(…, rootTable)}`): fold what is stored there
+	if ld, ok := v.(*ssa.UnOp); ok && ld.Op == token.MUL {
+		if fa, ok := ld.X.(*ssa.FieldAddr); ok {
+			if st := uniqueFieldStore(fa); st != nil {
+				if s := stmtTextEnv(st.Val, d+1, nil); s != "?" {
+					return s
+				}
+			}
+		}
+	}
 	if b, ok := v.Type().Underlying().(*types.Basic); ok && b.Info()&types.IsString != 0 {
 		t := stmtSx.Of(v).String()
+		// a table-name variable is named by its last component: `t.rootTable`, a constructor's `rootTable` parameter and a
+		// local copy of either are the same placeholder
+		if i := strings.LastIndex(t, "."); i >= 0 && !strings.ContainsAny(t[i:], "()[]{} ") {
+			t = t[i+1:]
+		}
 		var sb strings.Builder
 		sb.WriteString("VAR_")
 		for _, r := range t {
@@ -175,7 +191,8 @@ func boundArgs(fn *ssa.Function, stmt string, sx *core.Symx) []string {
 				if x.Op == "lit" && len(out) == 0 {
 					for j := 0; j < len(x.Fields); j++ {
 						if f := x.Fields[fmt.Sprintf("[const(%d)]", j)]; f != nil {
-							out = append(out, f.String())
+							// common.Hash.String() is Hex(): one spelling
+							out = append(out, strings.ReplaceAll(f.String(), "go-ethereum/common.Hash).String(", "go-ethereum/common.Hash).Hex("))
 						}
 					}
 				}
@@ -221,7 +238,7 @@ func checkOrdered(c *core.Ctx, rule string, specs []orderedSpec) {
 		}
 		var stmts []string
 		for _, s := range orderedStatements(fn) {
-			if q := parseOrdered(s); q != nil && q.table == w.table && (len(q.keys) > 0) == (w.keys != nil) {
+			if q := parseOrdered(s); q != nil && tableMatches(q.table, w.table) && (len(q.keys) > 0) == (w.keys != nil) {
 				stmts = append(stmts, s)
 			}
 		}
@@ -262,4 +279,92 @@ func checkOrdered(c *core.Ctx, rule string, specs []orderedSpec) {
 
 func isInitFn(fn *ssa.Function) bool {
 	return fn.Name() == "init" || strings.HasPrefix(fn.Name(), "init#")
+}
+
+var fieldStoreCache = map[string][]*ssa.Store{}
+
+// uniqueFieldStore: the only store in the package to the struct field addressed by fa (nil when there are none or several).
+func uniqueFieldStore(fa *ssa.FieldAddr) *ssa.Store {
+	fn := fa.Parent()
+	if fn == nil || fn.Pkg == nil {
+		return nil
+	}
+	pt, ok := fa.X.Type().Underlying().(*types.Pointer)
+	if !ok {
+		return nil
+	}
+	key := fn.Pkg.Pkg.Path() + "|" + types.TypeString(pt.Elem(), nil) + "|" + fmt.Sprint(fa.Field)
+	stores, done := fieldStoreCache[key]
+	if !done {
+		for _, m := range fn.Pkg.Members {
+			f, ok := m.(*ssa.Function)
+			if !ok {
+				continue
+			}
+			collect := func(g *ssa.Function, i ssa.Instruction) {
+				st, ok := i.(*ssa.Store)
+				if !ok {
+					return
+				}
+				a, ok := st.Addr.(*ssa.FieldAddr)
+				if !ok || a.Field != fa.Field {
+					return
+				}
+				apt, ok := a.X.Type().Underlying().(*types.Pointer)
+				if ok && types.Identical(apt.Elem(), pt.Elem()) {
+					stores = append(stores, st)
+				}
+			}
+			core.InstrsDeep(f, collect)
+		}
+		// methods
+		for _, mem := range fn.Pkg.Members {
+			if tn, ok := mem.(*ssa.Type); ok {
+				for _, t := range []types.Type{tn.Type(), types.NewPointer(tn.Type())} {
+					ms := fn.Prog.MethodSets.MethodSet(t)
+					for k := 0; k < ms.Len(); k++ {
+						if g := fn.Prog.MethodValue(ms.At(k)); g != nil && g.Pkg == fn.Pkg {
+							core.InstrsDeep(g, func(gg *ssa.Function, i ssa.Instruction) {
+								st, ok := i.(*ssa.Store)
+								if !ok {
+									return
+								}
+								a, ok := st.Addr.(*ssa.FieldAddr)
+								if !ok || a.Field != fa.Field {
+									return
+								}
+								apt, ok := a.X.Type().Underlying().(*types.Pointer)
+								if ok && types.Identical(apt.Elem(), pt.Elem()) {
+									dup := false
+									for _, s0 := range stores {
+										if s0 == st {
+											dup = true
+										}
+									}
+									if !dup {
+										stores = append(stores, st)
+									}
+								}
+							})
+						}
+					}
+				}
+			}
+		}
+		fieldStoreCache[key] = stores
+	}
+	if len(stores) == 1 {
+		return stores[0]
+	}
+	return nil
+}
+
+// tableMatches: want is a table name, or `TREE:ROOT` / `TREE:RHT` for the two tables of a tree, whose names are a
+// variable (prefix + "root" / "rht", held in a field, a parameter or computed in the constructor).
+func tableMatches(got, want string) bool {
+	if strings.HasPrefix(want, "TREE:") {
+		g := strings.ToUpper(got)
+		return strings.HasPrefix(g, "VAR_") && strings.HasSuffix(strings.TrimSuffix(g, "TABLE"), strings.TrimPrefix(want, "TREE:"))
+	}
+	return got == want
 }
